@@ -84,7 +84,9 @@ impl Property for C01 {
         let n_ih = rng.range(1, 2) as usize;
         let ihs: Vec<[u8; 20]> = (0..n_ih).map(|_| rng.id20()).collect();
         let mut t = t_ready;
-        let n_ann = rng.range(1, 3.min(n as u64 - 1).max(1)) as usize;
+        // long runs: every info-hash gets announced (by the same node when there are only two), so
+        // that pairs with different histories (renewed / not renewed) age side by side in the stores
+        let n_ann = if long { n_ih } else { rng.range(1, 3.min(n as u64 - 1).max(1)) as usize };
         let mut ann_steps: Vec<(usize, usize)> = Vec::new(); // (step, node)
         for k in 0..n_ann {
             let a = (k * 2) % n;
@@ -116,10 +118,23 @@ impl Property for C01 {
             let s = step(&mut sc, When::After { step: last_ann, delay: delta + extra }, Op::Search { node: b, ih, announce: false });
             first.get_or_insert(s);
         }
-        // a re-announce in between restarts the 24 hours
-        if long && rng.chance(1, 2) {
+        // a re-announce in between restarts the 24 hours (of that pair only)
+        if long && rng.chance(2, 3) {
             let (_, a) = ann_steps[0];
-            step(&mut sc, When::After { step: last_ann, delay: delta / 2 }, Op::Search { node: a, ih: ihs[0], announce: true });
+            let t_re = *rng.pick(&[3_600_000u64, delta / 2, DAY - 3_600_000]);
+            step(&mut sc, When::After { step: last_ann, delay: t_re }, Op::Search { node: a, ih: ihs[0], announce: true });
+            // searches on both sides of the first announce's and of the re-announce's 24 hours
+            let b = (a + 1) % n;
+            for at in [DAY + 180_000, t_re + DAY - 300_000] {
+                if at > t_re + 60_000 {
+                    step(&mut sc, When::After { step: last_ann, delay: at }, Op::Search { node: b, ih: ihs[0], announce: false });
+                }
+            }
+            if n_ih > 1 {
+                // the pair that was not renewed, just after its 24 hours
+                step(&mut sc, When::After { step: last_ann, delay: DAY + 240_000 }, Op::Search { node: (ann_steps[1].1 + 1) % n, ih: ihs[1], announce: false });
+            }
+            sc.params.insert("reannounce_ms".into(), t_re as i64);
         }
         // a late searcher after > 24 h in long runs
         if long {
